@@ -309,7 +309,8 @@ def needs_gap(prev: str, nxt: str) -> bool:
     return False
 
 
-COMMENT_WORDS = ["c", "note", "x y", "todo: fix", "a | b", "'q'", "é", "1>x", "/* in */", ";", "𝔘𝔘 wide"]
+COMMENT_WORDS = ["c", "note", "x y", "todo: fix", "a | b", "'q'", "é", "1>x", "/* in */", ";", "𝔘𝔘 wide",
+                 "first line\n   second line", "\n * boxed\n * comment\n ", "a\n\nb"]
 
 
 def random_gap(rng: random.Random, prev: str, nxt: str, toplevel: bool, p_comment=0.25):
@@ -326,6 +327,8 @@ def random_gap(rng: random.Random, prev: str, nxt: str, toplevel: bool, p_commen
             if c < p_comment:
                 kind = rng.random()
                 w = rng.choice(COMMENT_WORDS)
+                if kind < 0.45 or kind >= 0.85:
+                    w = " ".join(w.split())      # line / doc comments end at the line break
                 if kind < 0.45:
                     if w.startswith("/"):
                         w = " " + w
